@@ -314,7 +314,14 @@ impl Monitor for C18 {
             }
             obs.count("encodings_checked");
             // decode back
-            match self.eval1(Cell::from(got.clone()), c.dec) {
+            // text that carries tags is still that text
+            let text_cell = if rng.chance(1, 6) {
+                obs.count("decoded_text_carried_tags");
+                Cell::from(got.clone()).with_tags(Xmap::new().insert(Cell::from("k"), Cell::Int(1)))
+            } else {
+                Cell::from(got.clone())
+            };
+            match self.eval1(text_cell, c.dec) {
                 Err((m, l)) => return self.fail(obs, idx, c.dec, "panic", case, format!("panic {} at {}", m, l)),
                 Ok(Err(e)) => return self.fail(obs, idx, c.dec, "error", case, format!("decoder raised {}", show_err(&e))),
                 Ok(Ok(back)) => match back.bitstr().ok().and_then(|b| b.to_bytes()) {
